@@ -100,7 +100,7 @@ def run(ctx, rep: Report, deep: bool = False):
     rep.rule = (
         "logical discs -> independent writer (gen_akai) -> real `export`/`ls` and the Lean model of the parser: 1-3 partitions x 0-3 volumes x 0-7 files, chain shape in "
         "{contiguous, reversed, random permutation, sorted, head-not-lowest}, sample lengths incl. 0, 1, k*8192-140 bytes (exact fill, k=1..3) and +-1 word, start/end markers full/interior/empty, "
-        "rates incl. 0, S1000/S3000 type bytes, directory as chain or reserved-flag run, L/R pairs; oracle: file set and PCM computed from the logical model; distinct = distinct image; non-trivial = image with >= 1 sample"
+        "rates incl. 0, S1000/S3000 type bytes, directory as chain or reserved-flag run, a directory of more than 341 entries (two sectors), L/R pairs; oracle: file set and PCM computed from the logical model; distinct = distinct image; non-trivial = image with >= 1 sample"
     )
     cases = []
     for tag, disc in targeted_discs(rng):
@@ -114,6 +114,12 @@ def run(ctx, rep: Report, deep: bool = False):
             finally:
                 G.serialize.__defaults__ = old
         rep.feat("targeted_" + tag)
+    # a directory that spans more than one sector: more than 341 = 8192 // 24 files in one volume (S63)
+    for mode in (("chain", "run") if (deep or not ctx.quick) else (rng.choice(["chain", "run"]),)):
+        nfiles = rng.choice([342, 345, 400])
+        vol = G.Volume("BIG", [G.SampleFile(f"F{k:04d}", G.random_words(rng, rng.choice([1, 5, 30]))) for k in range(nfiles)], dir_mode=mode, dir_sectors=2)
+        check_disc(rep, cases, ctx, G.Disc([G.Partition([vol, G.Volume("SMALL", [G.SampleFile("AFTER", G.random_words(rng, 9))])], sectors=nfiles + 12)]), rng, f"big-directory:{mode}")
+        rep.feat("targeted_big-directory")
     for i in range(ctx.n(20, 300)):
         check_disc(rep, cases, ctx, G.random_disc(rng), rng, f"random{i}")
     if ctx.model_available:
@@ -130,7 +136,7 @@ def run(ctx, rep: Report, deep: bool = False):
         rep.families["akai-e2e"] = {"cases": len(cases), "disagreements": bad}
         if cases:
             rep.sample({"family": "akai-e2e", "op": cases[0].op, "result": cases[0].impl[:300]})
-    rep.required_features = ["images", "head_not_lowest_chains", "exact_fill_files", "dir_run", "dir_chain", "targeted_pair", "targeted_exact-fill"]
+    rep.required_features = ["images", "head_not_lowest_chains", "exact_fill_files", "dir_run", "dir_chain", "targeted_pair", "targeted_exact-fill", "targeted_big-directory"]
 
 
 def search(ctx, rep: Report):
